@@ -3,7 +3,7 @@
    Model: Model/Limiter.v (addrquota.ipKey; token bucket in exact arithmetic; packetlimiter's counter ring
    buffer, limiter and float comparison) over Base/Ip.v. *)
 From Coq Require Import List ZArith NArith Bool String QArith.
-From Verif Require Import Base.Hex Base.Ip Model.Limiter Proofs.C34 Proofs.C34_float.
+From Verif Require Import Base.Hex Base.Ip Base.Conc Model.Limiter Proofs.C34 Proofs.C34_float Proofs.C34_conc.
 Import ListNotations.
 Open Scope Z_scope.
 
@@ -127,6 +127,41 @@ Theorem C34_bucket_allow_iff : forall burst rnum rden b t,
   rden <= Z.min (burst * rden) (tok b + rnum * (Z.max t (last b) - last b)).
 Proof. exact bucket_allow_iff. Qed.
 Print Assumptions C34_bucket_allow_iff.
+
+(* ... lifted to EVERY interleaving (Base/Conc.v).  Any number of goroutines cs, each any number of
+   Blocked calls (group, dt >= 0 = time passed since the previous step, so timestamps are non-decreasing in
+   schedule order); one call = ONE atomic step (lookup-or-create of the group's bucket + Allow, as today's
+   code does under q.mu) on the shared cache group -> bucket.  For every schedule sched, every group g and
+   every interval [t0, t1], what g was granted obeys the bound of C34_bucket_bound. *)
+Theorem C34_quota_bound_all_schedules : forall burst rnum rden,
+  0 <= rnum -> 0 < rden -> 0 <= burst ->
+  forall (cs : list (list (N * Z))) (sched : list nat) tstart g t0 t1,
+  t0 <= t1 ->
+  let evs := snd (fst (run (caller_threads burst rnum rden cs) sched (mkQ tstart []))) in
+  granted_in t0 t1 (map fst (gtrace g evs)) (map snd (gtrace g evs)) * rden <= burst * rden + rnum * (t1 - t0).
+Proof. exact quota_bound_all_schedules. Qed.
+Print Assumptions C34_quota_bound_all_schedules.
+
+(* The split variant (seeded change C34-3: lookup under the lock, then create + add + Allow on a private
+   bucket) is refuted: burst 2, three first-contact callers of group 7, all lookups before all allows --
+   three granted at one instant. *)
+Theorem C34_quota_split_refuted : exists sched,
+  let evs := snd (fst (run (split_threads 2 1 1000000000000 7 3) sched (mkQ2 0 [] []))) in
+  map snd (gtrace 7 evs) = [true; true; true] /\
+  ~ (granted_in 0 0 (map fst (gtrace 7 evs)) (map snd (gtrace 7 evs)) * 1000000000000 <= 2 * 1000000000000 + 1 * (0 - 0)).
+Proof. exact quota_split_refuted. Qed.
+Print Assumptions C34_quota_split_refuted.
+
+(* non-vacuity: the same three callers (plus one of another group) with the atomic step: in each of the 24
+   complete schedules group 7 is granted exactly 2 and group 9 is served *)
+Example C34_quota_atomic_nonvacuous :
+  let cs := [[(7%N, 0)]; [(7%N, 0)]; [(7%N, 0)]; [(9%N, 5)]] in
+  forallb (fun sched =>
+     let evs := snd (fst (run (caller_threads 2 1 1000000000000 cs) sched (mkQ 0 []))) in
+     (List.length (filter (fun x => x) (map snd (gtrace 7 evs))) =? 2)%nat && (List.length (gtrace 9 evs) =? 1)%nat)
+    (all_schedules (caller_threads 2 1 1000000000000 cs)) = true /\
+  List.length (all_schedules (caller_threads 2 1 1000000000000 cs)) = 24%nat.
+Proof. exact quota_atomic_nonvacuous. Qed.
 
 (* ---------- (a) "group addresses by IPv4 /24 (including IPv4-mapped IPv6) and IPv6 /64" ---------- *)
 (* bits are numbered from the least significant end: /24 of an IPv4 address = bits 8..31, /64 = bits 64..127;
